@@ -17,7 +17,7 @@ import warnings
 
 import numpy as np
 
-from .. import c06_tr, c06_complete, c06_oracle as O
+from .. import c06_tr, c06_complete, c06_green, c06_oracle as O
 from ..core import TranslateError, clist, cnat, cnats, cints, cz, np_seed
 
 TOL = 1e-8
@@ -94,9 +94,10 @@ def run(ctx):
     warnings.simplefilter('ignore')
     ctx.trusted += ['scipy spsolve and the assembly of real bases (oracle only; the theorems speak about basis tables)',
                     'NumPy/SciPy COO->CSR duplicate summation (modelled as the dense semantics; validated by correspondence)']
-    ctx.assumptions += ['NOT PROVED: the interpolant of a polynomial solution of the element\'s degree satisfies the free rows: Green\'s identity '
-                        'cell by cell and its assembly over the mesh (polynomial completeness is now proved here; exact quadrature on the reference '
-                        'cell is C08/C02)',
+    ctx.assumptions += ['NOT PROVED: the affine change of variables that carries Green\'s identity from the reference cell (proved here, exact polynomial '
+                        'arithmetic) to a physical affine cell, and additivity of the integral over the cells; with these as the explicit hypotheses '
+                        'green_cell / load / cancel the patch test is proved (C06_patch_test_from_green_partial); polynomial completeness is proved; '
+                        'exact quadrature on the reference cell is C08/C02',
                         'NOT PROVED: scipy.sparse.linalg.spsolve returns the solution of a nonsingular system',
                         'the projection theorems cover basis functions that are tuples of scalar- or vector-valued fields (composite / '
                         'vector / H(div) / H(curl) value fields: inner = sum over all components); matrix-valued fields (the ddot branch of '
@@ -111,6 +112,23 @@ def run(ctx):
                        'subset; distinct by content')
     ctx.ensure_static()
     gen_ok = False
+    # Green's identity on the reference cells: the largest generated file; compiled in the background while the
+    # correspondence and the oracle run
+    import threading
+    green = {}
+
+    def _green():
+        try:
+            txt, summary = c06_green.generate()
+            ctx.write_gen('C06Green', txt)
+            green['ok'] = ctx.compile_dyn(['gen/C06Green.v'], timeout=600)
+            ctx.extra['green_reference_cells'] = summary
+        except TranslateError as e:
+            ctx.broke('translator', 'c06_green.generate', e)
+        except Exception as e:  # noqa: BLE001
+            ctx.broke('harness', 'c06_green', repr(e))
+    gth = threading.Thread(target=_green)
+    gth.start()
     try:
         # polynomial completeness certificates from the exact basis polynomials of the current source
         txt, summary = c06_complete.generate()
@@ -125,10 +143,10 @@ def run(ctx):
             ctx.compile_dyn(ctx.copy_dyn())
     except TranslateError as e:
         ctx.broke('translator', 'c06_tr.translate', e)
-    ctx.prove()
-
     _correspond(ctx, gen_ok)
     _oracle(ctx)
+    gth.join()
+    ctx.prove()
 
 
 # ------------------------------------------------------------------------------------ correspondence on stubs
